@@ -11,7 +11,10 @@ from terms import show
 
 SEQ = r"^seq::Seq<A>$"
 # adapters that hand the same bytes on, in order (std rows)
-ADAPT = re.compile(r"^core::str::<impl str>::as_bytes$|^std::string::String::as_str$|^std::slice::<impl \[u8\]>::to_vec$|^<std::string::String as std::ops::Deref>::deref$|^std::string::String::as_bytes$")
+ADAPT = re.compile(r"^core::str::<impl str>::as_bytes$|^std::string::String::as_str$|^std::slice::<impl \[u8\]>::to_vec$|^<std::string::String as std::ops::Deref>::deref$|^std::string::String::as_bytes$"
+                   r"|^std::string::String::into_bytes$|^std::vec::Vec::<u8>::as_slice$|^<std::vec::Vec<u8> as std::ops::Deref>::deref$|^core::str::<impl str>::bytes$"
+                   r"|^<std::string::String as std::convert::AsRef<str>>::as_ref$|^<std::string::String as std::convert::AsRef<\[u8\]>>::as_ref$|^<str as std::convert::AsRef<\[u8\]>>::as_ref$"
+                   r"|^std::string::String::into_boxed_str$|^<std::vec::Vec<u8> as std::convert::AsRef<\[u8\]>>::as_ref$")
 
 
 def entry(chk, cfg, what, **kw):
@@ -45,50 +48,58 @@ def run(ctx, chk):
                     chk.ob("T-ascii/high", "%s byte 0x%02x" % (cd.short, b), tfa[b] == ("none",) or b in [ord(ch) for ch in orc["codecs"].get(cd.ty, {}).get("alphabet", "")],
                            "non-ASCII byte 0x%02x accepted: %s" % (b, tfa[b]), cd.where)
         # (b) entry points
-        vecb = entry(chk, cfg, "TryFrom<Vec<u8>> for Seq", name="try_from", trait="std::convert::TryFrom", self_re=SEQ, targ_re=r"^std::vec::Vec<u8>$")
-        targets = {}
-        if vecb:
-            paths, _ = an.analyse(cfg, vecb)
-            r = [p for p in paths if p.end == "return"]
-            ok = False
-            d = "?"
-            if len(r) == 1 and not r[0].guards:
-                x, d = pipes.strict_parse_of(cfg, r[0].ret)
-                ok = x == P(1)
-            chk.ob("S-parse", "TryFrom<Vec<u8>> for Seq", ok,
-                   "must be v.into_iter().map(|b| try_from_ascii(b).ok_or(UnrecognisedBase(b))).collect(); " + d, vecb["span"], sample="strict parser normal form")
-            if ok:
-                targets[vecb["path"]] = True
-                nentry += 1
-        order = [("TryFrom<&[u8]> for Seq", dict(name="try_from", trait="std::convert::TryFrom", self_re=SEQ, targ_re=r"^&\[u8\]$")),
+        # every entry point is either the strict parser over (an order-preserving adapter of) its own argument, or a delegation
+        # of (an adapter of) its argument to an entry point already established - in whichever direction the delegations run
+        order = [("TryFrom<Vec<u8>> for Seq", dict(name="try_from", trait="std::convert::TryFrom", self_re=SEQ, targ_re=r"^std::vec::Vec<u8>$")),
+                 ("TryFrom<&[u8]> for Seq", dict(name="try_from", trait="std::convert::TryFrom", self_re=SEQ, targ_re=r"^&\[u8\]$")),
                  ("TryFrom<&str> for Seq", dict(name="try_from", trait="std::convert::TryFrom", self_re=SEQ, targ_re=r"^&str$")),
                  ("TryFrom<String> for Seq", dict(name="try_from", trait="std::convert::TryFrom", self_re=SEQ, targ_re=r"^std::string::String$")),
                  ("TryFrom<&String> for Seq", dict(name="try_from", trait="std::convert::TryFrom", self_re=SEQ, targ_re=r"^&std::string::String$")),
                  ("FromStr for Seq", dict(name="from_str", trait="std::str::FromStr", self_re=SEQ))]
+        targets = {}
+        pending = []
         for what, kw in order:
             b = entry(chk, cfg, what, **kw)
-            if not b:
-                continue
-            paths, _ = an.analyse(cfg, b)
-            r = [p for p in paths if p.end == "return"]
-            ok = False
-            got = show(r[0].ret)[:200] if r else "?"
-            if len(r) == 1 and not r[0].guards and r[0].ret[0] == "call":
-                t = r[0].ret
-                if t[1] in targets and len(t[2]) == 1:
-                    a = t[2][0]
-                    # the argument is the input itself or an order-preserving adapter of it
-                    while an.is_call(a, ADAPT):
-                        a = a[2][0]
-                    ok = a == P(1)
-                else:
-                    x, d = pipes.strict_parse_of(cfg, t)
-                    ok = x is not None and (x == P(1) or (an.is_call(x, ADAPT) and x[2][0] == P(1)))
-                    got += " / " + d
-            chk.ob("S-parse", what, ok, "must reduce to the strict byte parser over the same bytes in order; got " + got, b["span"])
-            if ok:
-                targets[b["path"]] = True
-                nentry += 1
+            if b:
+                paths, _ = an.analyse(cfg, b)
+                pending.append((what, b, [p for p in paths if p.end == "return"]))
+
+        def strip(a):
+            while an.is_call(a, ADAPT) and len(a[2]) == 1:
+                a = a[2][0]
+            return a
+        verdict = {}
+        progress = True
+        while progress and pending:
+            progress = False
+            for item in list(pending):
+                what, b, r = item
+                ok = False
+                got = show(r[0].ret)[:200] if r else "?"
+                if len(r) == 1 and not r[0].guards and r[0].ret[0] == "call":
+                    t = r[0].ret
+                    if t[1] in targets and len(t[2]) == 1:
+                        ok = strip(t[2][0]) == P(1)
+                    elif t[1] not in [x[1]["path"] for x in pending]:
+                        x, d = pipes.strict_parse_of(cfg, t)
+                        ok = x is not None and strip(x) == P(1)
+                        got += " / " + d
+                    else:
+                        continue      # delegates to an entry point not judged yet
+                verdict[what] = (ok, got, b)
+                pending.remove(item)
+                progress = True
+                if ok:
+                    targets[b["path"]] = True
+        for what, b, r in pending:
+            verdict[what] = (False, "circular delegation: " + (show(r[0].ret)[:160] if r else "?"), b)
+        for what, kw in order:
+            if what in verdict:
+                ok, got, b = verdict[what]
+                chk.ob("S-parse", what, ok, "must reduce to the strict byte parser over the same bytes in order; got " + got, b["span"],
+                       sample="strict parser normal form" if what.startswith("TryFrom<Vec") else None)
+                if ok:
+                    nentry += 1
         # (c) push, (b') collection = one push per item: imported C06 rows
         _import_rows(chk, cfg)
         # (d) display
@@ -109,7 +120,10 @@ def run(ctx, chk):
             if len(r) == 1 and not r[0].guards and an.is_call(r[0].ret, re.compile(r"^std::fmt::Formatter::<'_>::write_fmt$|^std::fmt::Formatter::<'_>::write_str$")):
                 t = r[0].ret
                 if short(t[1]) == "write_str":
-                    ok = t[2][0] == P(2) and an.is_call(t[2][1], str_from_slice, (P(1),))
+                    sarg = t[2][1]
+                    while an.is_call(sarg, re.compile(r"^<std::string::String as std::ops::Deref>::deref$|^std::string::String::as_str$|^<std::string::String as std::convert::AsRef<str>>::as_ref$")):
+                        sarg = sarg[2][0]
+                    ok = t[2][0] == P(2) and an.is_call(sarg, str_from_slice, (P(1),))
                 else:
                     a = t[2][1]
                     if an.is_call(a, re.compile(r"^std::fmt::Arguments::<'_>::new::<")):
